@@ -13,6 +13,25 @@ KINDS = [
 
 # characters that str.splitlines() treats as line boundaries although a text file does not (valid UTF-8)
 SEPARATORS = ["\x0b", "\x0c", "\x1c", "\x1d", "\x1e", "\u0085", "\u2028", "\u2029"]
+COUNT_RE = re.compile(rb"N=\s*(\d+)(?![\w.])")
+
+
+class _Span:
+    """Minimal stand-in for a match object (start/end/group)."""
+
+    def __init__(self, a, b, g):
+        self._a, self._b, self._g = a, b, g
+
+    def start(self):
+        return self._a
+
+    def end(self):
+        return self._b
+
+    def group(self):
+        return self._g
+
+
 INT_RE = re.compile(rb"(?<![\w.+-])\d+(?![\w.])")
 
 NUM_RE = re.compile(rb"(?<![A-Za-z_])[-+]?(?:\d+\.?\d*|\.\d+)(?:[eEdD][-+]?\d+)?")
@@ -108,19 +127,22 @@ def apply(data, f):
         return data[:off] + sep + data[off + (1 if f.get("replace") and off < len(data) and data[off:off + 1] == b" " else 0):]
     if kind == "int_nudge":
         # an integer token (a count, an index) becomes another plausible integer
-        toks = list(INT_RE.finditer(data))
-        if f.get("aim") == "traj_count":
-            # sizes of the per-point blocks of an optimisation / IRC trajectory ("... Results for each geome  R  N=  10")
-            sel = []
-            for t in toks:
-                ls_ = data.rfind(b"\n", 0, t.start()) + 1
-                if b"geome" in data[ls_: t.start()] and data[max(0, t.start() - 12): t.start()].rstrip().endswith(b"N="):
-                    sel.append(t)
-            toks = sel or toks
-        if f.get("aim") == "count":
-            # announced sizes: "N=   28" in formatted checkpoint files, the first number of a counts line
-            counts = [t for t in toks if data[max(0, t.start() - 12): t.start()].rstrip().endswith(b"N=")]
-            toks = counts or toks
+        toks = None
+        if f.get("aim") in ("count", "traj_count"):
+            # announced sizes: "N=   28" in formatted checkpoint files; for "traj_count" only the per-point blocks of an
+            # optimisation / IRC trajectory ("... Results for each geome  R  N=  10")
+            counts = []
+            for mm in COUNT_RE.finditer(data):
+                if f["aim"] == "traj_count":
+                    ls_ = data.rfind(b"\n", max(0, mm.start() - 200), mm.start()) + 1
+                    if b"geome" not in data[ls_: mm.start()]:
+                        continue
+                counts.append(_Span(mm.start(1), mm.end(1), mm.group(1)))
+                if len(counts) > 4000:
+                    break
+            toks = counts or None
+        if toks is None:
+            toks = list(INT_RE.finditer(data[:400_000]))
         if not toks:
             return data
         m = toks[f["i"] % len(toks)]
